@@ -194,11 +194,30 @@ def free_tensors(sc):
     return [t for t in circuit_tensor_params(sc) if not isinstance(t, P.ConstantParameter) and t.learnable]
 
 
-def valuation(ts, kind, seed):
+def softmax_inputs(sc):
+    """Tensors whose (only) consumer is a softmax node: softmax is invariant to a per-row shift of its input."""
+    out = set()
+    for sl in sc.layers:
+        for p in sl.params.values():
+            for n in p.nodes:
+                if isinstance(n, P.SoftmaxParameter):
+                    for i in p.node_inputs(n):
+                        if isinstance(i, P.TensorParameter) and len(i.shape) == 2 and n.axis == 1:
+                            out.add(i)
+    return out
+
+
+def valuation(ts, kind, seed, shiftable=()):
     val = {}
     for i, t in enumerate(ts):
         rng = np.random.default_rng([seed, i, 31])
-        if kind == "generic":
+        if kind == "rowshift":
+            a = rng.uniform(-1.5, 1.5, size=t.shape)
+            if t in shiftable:
+                # rows (and tensors) far apart: a correct softmax normalises each row on its own
+                a = a - 400.0 * np.arange(t.shape[0])[:, None] - 350.0 * (i % 3)
+            val[t] = a
+        elif kind == "generic":
             val[t] = rng.uniform(-1.5, 1.5, size=t.shape)
         else:  # extreme
             val[t] = rng.choice([-30.0, 30.0, -3.0, 0.5], size=t.shape)
@@ -280,9 +299,10 @@ def run_case(case):
     cont = any(d[0] == "cont" for d in dom.values())
     viols = []
     counters = {"configs": 0, "rows": 0, "history_states": 0}
-    kinds = ["generic"] + ([] if cont else ["extreme"])
+    kinds = ["generic"] + ([] if cont else ["extreme"]) + ["rowshift"]
+    shiftable = softmax_inputs(sc)
     for vk in kinds:
-        check_normalised(sc, valuation(ts, vk, seed), dom, big, viols, counters, vk, case)
+        check_normalised(sc, valuation(ts, vk, seed, shiftable), dom, big, viols, counters, vk, case)
     if case.get("history"):
         viols += run_history(sc, ts, dom, seed, counters)
     uniq = {}
